@@ -332,6 +332,9 @@ class Executor:
                     base = self.val(m.group(2).strip(), "ptr", env)
                     idxs = re.findall(r"(i\d+)\s+([^,]+)", m.group(3))
                     if len(idxs) != 1:
+                        if all(v.strip() == "0" for _, v in idxs):
+                            env[ins_.dest] = base  # type: ignore[index]  # a cast to the first member: same address
+                            continue
                         raise IRUnsupported("multi-index gep: " + t)
                     scale = {"i8": 1, "i16": 2, "i32": 4, "i64": 8, "ptr": 8, "double": 8}.get(elty)
                     if scale is None:
